@@ -709,7 +709,10 @@ void    mktemplate (int state[], int statenum, int comstate)
 		}
 
 	if (ctrl.usemecs)
-		mkeccl (transset, tsptr, tecfwd, tecbck, numecs, 0);
+		/* Symbol 256 (NUL when equivalence classes are not used) was
+		 * stored as 0 above; have mkeccl map it back.
+		 */
+		mkeccl (transset, tsptr, tecfwd, tecbck, numecs, CSIZE);
 
 	mkprot (tnxt + tmpbase, -numtemps, comstate);
 
